@@ -26,9 +26,12 @@ def run(tier, seed, t0, prefix="c06.", pid=ID, manifest_rule=None):
     m.violations = [v for v in m.violations if v.get("crash") or v["key"].startswith(prefix)]
     floors = {"tissues_with_pairs_in_range": (m.nontrivial, 0.7 * m.evaluations), "pairs_within_cutoff": (m.bins.get("pairs_within_cutoff", 0), 100000),
               "all_pairs_comparisons": (m.bins.get("all_pairs_comparisons", 0), 0.3 * m.evaluations), "pairs_gated_out": (m.bins.get("pairs_gated_out", 0), 100),
-              "family_cluster": (m.bins.get("family:cluster", 0), 20), "family_nucleus_in_cell": (m.bins.get("family:nucleus_in_cell", 0), 10), "family_cell_in_ecm": (m.bins.get("family:cell_in_ecm", 0), 10), "family_row_touching": (m.bins.get("family:row_touching", 0), 10)}
+              "family_cluster": (m.bins.get("family:cluster", 0), 20), "family_nucleus_in_cell": (m.bins.get("family:nucleus_in_cell", 0), 10), "family_cell_in_ecm": (m.bins.get("family:cell_in_ecm", 0), 10), "family_row_touching": (m.bins.get("family:row_touching", 0), 10),
+              "tissues_with_unused_slots_before_last_cell": (m.bins.get("tissues_with_unused_slots_before_last_cell", 0), 0.1 * m.evaluations),
+              "second_evaluation_with_same_model_object": (m.bins.get("model_object_reused", 0), 0.5 * m.evaluations)}
     return R.finish(pid, tier, seed, m,
                     "tissue = family (cluster / nucleus in cell / cell in ECM / touching row) x 2-8 cells x classes x sizes x mesh families x (l_min, cut-offs) generic or powers "
-                    "of two x placement (origin, straddling, far, voxel multiples, nodes on half-voxel planes) x contact model x threads; non-trivial = at least one "
+                    "of two x placement (origin, straddling, far to 3e6 cell sizes, voxel multiples, nodes on half-voxel planes) x cells with unused node/face slots left by "
+                    "edge collapses x second evaluation with the same model object on the re-oriented tissue x contact model x threads; non-trivial = at least one "
                     "cross-cell node-face pair lies within the cut-off; distinct = hash of (pairs in range, pairs presented, nodes with force, sum |F|)",
                     t0, ["own closest-point oracle in long double", "hook H6 records each call of the narrow phase per thread"], floors=floors)
